@@ -925,5 +925,58 @@ def rule_must_recency(ctx):
                 r.instance(function=up, update_arm=True, moves_ao=ao, moves_wo=wo)
                 if not (ao and wo):
                     r.violate(up, 'update-without-recency', 'ao=%s,wo=%s' % (ao, wo), 'the update arm of the write-op consumer does not refresh recency', where=ctx.where(up))
+    # the cache-level move wrappers themselves: a wrapper with action = move performs the list move on EVERY path, except where it has established that
+    # there is nothing to move (the entry has no node pointer for that queue / the node is not a member of the deque).  Any other condition inside the
+    # wrapper (the entry's weight, a timestamp comparison with the current tail, a region it "need not" reorder) silently drops a use from the LRU order
+    nwrap = 0
+    # the list's move operation as the wrappers see it: the move role or a function of the list module built on it (`move_to_back_if_member`)
+    _list_move = set(R.move) | {n_ for n_ in prog.bodies if n_.startswith('common::deque::') and prog.bodies[n_].kind != 'closure' and (prog.reachable_from([n_]) & R.move)}
+    for fn_ in sorted(prog.bodies):
+        wk_ = wrapper_kind(ctx, fn_)
+        if not wk_ or wk_[0] != 'move' or prog.bodies[fn_].kind == 'closure' or not (prog.callees(fn_) & _list_move) or prog.bodies[fn_].loops():
+            continue        # (only the wrappers that call the list's move operation themselves; their callers are judged by the clauses above)
+        if not any(e_[0] == 'read' and e_[2] in ('access_order_q_node', 'write_order_q_node') for e_ in ctx.eff.transitive(fn_)):
+            continue        # (an entry-level wrapper: it takes the node from the entry's own pointer)
+        try:
+            wp_ = [q for q in _run(ctx, fn_, inline_depth=0, loop_visits=2, inline_pred=lambda n_, bb_, d_: False) if not q.diverged]
+        except CheckFailure:
+            continue
+        if not wp_:
+            continue
+
+        def _moves_here(q):
+            return any(e_[0] == 'call' and (e_[1] in _list_move or (e_[1] in prog.bodies and e_[1] != fn_ and (wrapper_kind(ctx, e_[1]) or (None,))[0] == 'move')) for e_ in q.events)
+
+        def _nothing_to_move(q):
+            for c_, v_ in q.conds:
+                if not isinstance(c_, tuple) or not c_:
+                    continue
+                # the node pointer is None
+                if c_[0] == 'discr' and v_ == 0 and any(isinstance(x, tuple) and x and ((x[0] == 'fld' and 'q_node' in str(x[2])) or (x[0] == 'call' and 'q_node' in str(x[1])))
+                                                         for x in subterms(c_)):
+                    return True
+                if c_[0] == 'cmp' and c_[1] in ('eq', 'ne') and isinstance(v_, bool) and any(isinstance(x, tuple) and x and x[0] == 'discr' and any(
+                        isinstance(y, tuple) and y and ((y[0] == 'fld' and 'q_node' in str(y[2])) or (y[0] == 'call' and 'q_node' in str(y[1]))) for y in subterms(x)) for x in (c_[2], c_[3])):
+                    k_ = c_[3] if isinstance(c_[2], tuple) and c_[2] and c_[2][0] == 'discr' else c_[2]
+                    if k_ in (('c', 0), ('c', 1)) and ((v_ if c_[1] == 'eq' else not v_) == (k_ == ('c', 0))):
+                        return True
+                # the node is not a member of the deque (membership test of the list module answered false)
+                if c_[0] == 'call' and c_[1] in R.member and v_ is False:
+                    return True
+            return False
+        has_move = any(_moves_here(q) for q in wp_)
+        if not has_move:
+            continue        # a dispatcher whose callees are judged themselves
+        for q in wp_:
+            nwrap += 1
+            ok_ = _moves_here(q) or _nothing_to_move(q)
+            r.instance(function=fn_, clause='wrapper-always-moves', queue=wk_[1], moves=_moves_here(q), nothing_to_move=_nothing_to_move(q), ok=ok_)
+            if not ok_:
+                r.violate(fn_, 'wrapper-skips-move', wk_[1] or 'q', 'a path of the move wrapper %s returns without moving the node although the entry has a node that is a member of the deque '
+                          '(conditions: %s): a use that does not refresh recency puts a recently used entry in front of less recently used ones' % (
+                              fn_, [fmt(c_)[:50] + '==' + str(v_) for c_, v_ in q.conds][-4:]), where=ctx.where(fn_),
+                          expected='if let Some(node) = entry.<queue>_q_node() { if deq.contains(node) { deq.move_to_back(node) } } -- nothing else decides')
+    if nwrap < 4:
+        raise CheckFailure('MUST-recency: only %d path(s) of move wrappers analysed (wrapper-always-moves would pass vacuously)' % nwrap)
     r.require_floor(6, 'use paths')
     return r
